@@ -282,9 +282,8 @@ def run_check(prop, spec, tier):
             seen_keys = set()
             for tr in violations:
                 key = (tr['violation']['property'], tr['violation']['oracle'])
-                if key in seen_keys or len(reported) >= 3:
+                if key in seen_keys or len(reported) >= 3 or len(unreproducible) >= 6:
                     continue
-                seen_keys.add(key)
                 try:
                     small = pool.submit(work_shrink, engine_name, tr,
                                         float(tcfg.get('shrink_s', 60))).result(timeout=900)
@@ -304,6 +303,7 @@ def run_check(prop, spec, tier):
                     code, out, err = fresh_replay(path)
                     confirmed = code == 1
                 if confirmed:
+                    seen_keys.add(key)       # one report per oracle; an unconfirmed trace does not use the slot up
                     print(f"VIOLATION property={prop} replay={path}", flush=True)
                     print(f"  oracle={small['violation']['oracle']} events={len(small['events'])} "
                           f"seed={seed} run={tr['run']}: {small['violation']['msg']}", flush=True)
